@@ -354,7 +354,9 @@ func (t *Tree) WalkDeleted(path []string, condition func(interface{}) bool, f fu
 	// to the entire Tree.
 	defer t.mu.Unlock()
 	t.mu.Lock()
-	if delBr, _ := t.internalDelete(path, condition, f, false); delBr {
+	var held []*Tree
+	defer unlockAll(&held)
+	if delBr, _ := t.internalDelete(path, condition, f, false, &held); delBr {
 		t.leafBranch = nil
 	}
 }
@@ -365,7 +367,7 @@ func (t *Tree) WalkDeleted(path []string, condition func(interface{}) bool, f fu
 // a slice of subpaths ([]string) for all leaves deleted thus far if
 // retDeletedPaths is true. If retDeletedPaths is false, the returned slice
 // of subpaths is nil.
-func (t *Tree) internalDelete(subpath []string, condition func(interface{}) bool, f func(interface{}), retDeletedPaths bool) (bool, [][]string) {
+func (t *Tree) internalDelete(subpath []string, condition func(interface{}) bool, f func(interface{}), retDeletedPaths bool, held *[]*Tree) (bool, [][]string) {
 	if len(subpath) == 0 || subpath[0] == "*" {
 		if len(subpath) != 0 {
 			subpath = subpath[1:]
@@ -380,8 +382,8 @@ func (t *Tree) internalDelete(subpath []string, condition func(interface{}) bool
 				// The root lock keeps every other tree operation out, but a retained
 				// Leaf handle can still Update its node: take the node's own lock.
 				v.mu.Lock()
-				del, leaves := v.internalDelete(subpath, condition, f, retDeletedPaths)
-				v.mu.Unlock()
+				*held = append(*held, v)
+				del, leaves := v.internalDelete(subpath, condition, f, retDeletedPaths, held)
 				if retDeletedPaths {
 					leaf := []string{k}
 					for _, l := range leaves {
@@ -418,8 +420,8 @@ func (t *Tree) internalDelete(subpath []string, condition func(interface{}) bool
 		// Continue to recurse on subpath while it matches nodes in the Tree.
 		if br := b[subpath[0]]; br != nil {
 			br.mu.Lock()
-			delBr, allLeaves := br.internalDelete(subpath[1:], condition, f, retDeletedPaths)
-			br.mu.Unlock()
+			*held = append(*held, br)
+			delBr, allLeaves := br.internalDelete(subpath[1:], condition, f, retDeletedPaths, held)
 			if retDeletedPaths {
 				leaf := []string{subpath[0]}
 				// Prepend branch node name to all progeny leaves of branch.
@@ -443,6 +445,15 @@ func (t *Tree) internalDelete(subpath []string, condition func(interface{}) bool
 	return false, nil
 }
 
+// unlockAll releases the node locks a delete collected. They are kept until the
+// delete has finished so that an update through a retained Leaf handle cannot
+// take effect between the inspection of two leaves.
+func unlockAll(held *[]*Tree) {
+	for _, n := range *held {
+		n.mu.Unlock()
+	}
+}
+
 // DeleteConditional removes all leaves at or below subpath as well as any
 // ancestors with no children for those leaves which the given conditional
 // function returns true, returning the list of all leaves removed.
@@ -453,7 +464,9 @@ func (t *Tree) DeleteConditional(subpath []string, condition func(interface{}) b
 	// to the entire Tree.
 	defer t.mu.Unlock()
 	t.mu.Lock()
-	delBr, leaves := t.internalDelete(subpath, condition, func(interface{}) {}, true)
+	var held []*Tree
+	defer unlockAll(&held)
+	delBr, leaves := t.internalDelete(subpath, condition, func(interface{}) {}, true, &held)
 	if delBr {
 		t.leafBranch = nil
 	}
